@@ -630,3 +630,39 @@ func CurrentSim() *Sim {
 	}
 	return nil
 }
+
+// RootsDone reports whether every root task has finished.
+func (s *Sim) RootsDone() bool {
+	for _, t := range s.Tasks() {
+		if t.Root && !t.Done() {
+			return false
+		}
+	}
+	return true
+}
+
+// AllDone reports whether every task (root or implicit) has finished.
+func (s *Sim) AllDone() bool {
+	for _, t := range s.Tasks() {
+		if !t.Done() {
+			return false
+		}
+	}
+	return true
+}
+
+// Stuck describes the tasks that are not done (name, state, site) — used in
+// deadlock verdicts.
+func (s *Sim) Stuck() string {
+	var sb strings.Builder
+	for _, t := range s.Tasks() {
+		st, site, _ := t.snapshot()
+		switch st {
+		case stParked:
+			fmt.Fprintf(&sb, "%s parked@%s; ", t.Name, shortSite(site))
+		case stRunning, stNew:
+			fmt.Fprintf(&sb, "%s blocked-elsewhere; ", t.Name)
+		}
+	}
+	return sb.String()
+}
